@@ -37,6 +37,11 @@ CLOCKS = ("time.", "datetime.", "uuid.", "secrets.", "os.urandom", "os.getpid", 
 # draws made in worker processes come from generators seeded from OS entropy; draws made in worker threads are handed out
 # in scheduling order
 PARALLEL = ("joblib.", "multiprocessing.", "concurrent.futures.", "threading.", "asyncio.", "dask.", "ray.")
+# switches that change how every later computation in the process behaves
+PROCESS_SWITCHES = ("torch.set_flush_denormal", "torch.set_default_dtype", "torch.set_default_tensor_type",
+                    "torch.set_num_threads", "torch.use_deterministic_algorithms", "torch.manual_seed", "torch.seed",
+                    "numpy.seterr", "numpy.seterrcall", "numpy.set_printoptions", "sys.setrecursionlimit",
+                    "decimal.setcontext", "locale.setlocale", "os.environ")
 TQDM_STATE = ("n", "last_print_n", "last_print_t", "start_t", "avg_time", "format_dict", "elapsed")
 SEED_PARAMS = ("seed", "random_state")
 SEEDED_FALLBACK = {"river.tree.HoeffdingAdaptiveTreeClassifier", "river.tree.HoeffdingAdaptiveTreeRegressor",
@@ -171,6 +176,7 @@ def scan_module(prog, m):
                     if d and d.startswith("tqdm"):
                         tqdm_names.add(it.optional_vars.id)
     # E1 / E2 on resolved call targets and name references
+    call_funcs = {id(c.func) for c in ast.walk(m.tree) if isinstance(c, ast.Call)}
     for n in ast.walk(m.tree):
         if isinstance(n, ast.Call):
             d = prog.dotted_of(m, n.func) if isinstance(n.func, (ast.Attribute, ast.Name)) else None
@@ -216,6 +222,12 @@ def scan_module(prog, m):
             elif any(d.startswith(c) or d == c for c in CLOCKS):
                 counts["E2"] += 1
                 out.append(("E2", n.lineno, "", f"{d}(...)", f"{d} makes results depend on wall-clock time / OS entropy / identity"))
+            elif d in PROCESS_SWITCHES:
+                counts["E2"] += 1
+                out.append(("E2", n.lineno, "", f"{d}(...)",
+                            f"{d} changes a process-wide setting: from this call on every computation in the process (also of "
+                            f"objects built earlier, also plain Python / NumPy arithmetic) behaves differently, so a replay "
+                            f"depends on which library objects were created before it"))
             elif any(d.startswith(c) for c in PARALLEL):
                 counts["E2"] += 1
                 out.append(("E2", n.lineno, "", f"{d}(...)",
@@ -223,8 +235,14 @@ def scan_module(prog, m):
                             f"the global seeds do not control (processes) or are handed out in scheduling order (threads)"))
         elif isinstance(n, ast.Attribute):
             d = prog.dotted_of(m, n)
-            if d in ("random.SystemRandom", "numpy.random.default_rng"):
-                pass
+            if d in ("random.Random", "random.SystemRandom", "numpy.random.default_rng", "numpy.random.RandomState",
+                     "numpy.random.Generator") and isinstance(n.ctx, ast.Load) and id(n) not in call_funcs:
+                # the generator class handed on as a value (`default_factory=random.Random`, a table entry): whoever calls
+                # it without a seed gets a generator seeded from OS entropy
+                counts["E1"] += 1
+                out.append(("E1", n.lineno, "", f"{d} used as a factory",
+                            f"{d} is handed on as a callable: called without arguments it creates a private generator seeded "
+                            f"from OS entropy, which the global seeds do not control"))
             if isinstance(n.value, ast.Name) and n.value.id in tqdm_names and n.attr in TQDM_STATE and isinstance(n.ctx, ast.Load):
                 counts["E2"] += 1
                 out.append(("E2", n.lineno, "", f"{n.value.id}.{n.attr} of a tqdm progress bar",
